@@ -455,7 +455,28 @@ class Ctx:
                 self.broken_obligations.append({"obligation": n, "detail": r})
         self.cov["discharged"] += good
         self.cov["print_assumptions"] = tb
+        if self.tier == "thorough" and os.environ.get("VERIF_NO_COQCHK") != "1":
+            self.coqchk(prop_file)
         return good == len(names)
+
+    def coqchk(self, prop_file):
+        """thorough tier: re-check the compiled property file and everything it depends on with the
+        independent checker and record the context summary (axioms, type-in-type, unsafe fixpoints)"""
+        mod = "MPV." + prop_file[:-2].replace("/", ".")
+        try:
+            rc, out = sh(["timeout", "2400", "coqchk", "-silent", "-o", "-R", COQ, "MPV", mod], cwd=COQ, timeout=2500)
+        except subprocess.TimeoutExpired:
+            rc, out = 124, "timeout"
+        summary = out[out.find("CONTEXT SUMMARY"):] if "CONTEXT SUMMARY" in out else out[-800:]
+        lines = [l.strip() for l in summary.split("\n") if l.strip() and not set(l.strip()) <= set("=")]
+        self.cov["coqchk"] = {"cmd": f"coqchk -silent -o -R {COQ} MPV {mod}", "exit": rc, "summary": lines[:40]}
+        clean = rc == 0 and any("Axioms: <none>" in l for l in lines) and \
+            any("type-in-type: <none>" in l for l in lines) and \
+            any("unsafe (co)fixpoints: <none>" in l for l in lines) and \
+            any("positivity is assumed: <none>" in l for l in lines)
+        if not clean:
+            self.broken_obligations.append({"obligation": "coqchk -o " + mod, "detail": lines[:40]})
+        return clean
 
     # --- verdict ------------------------------------------------------------
     def replay_path(self, obj):
